@@ -1,6 +1,7 @@
 #!/bin/bash
 # usage: confirm_seed.sh <ID> <a|b>  -- independently confirms a seeded change delivered under /tmp/wt/out/<ID>/<x>/
 # (applies in a scratch worktree outside /repo and /verif, demo must FAIL with it and PASS without, pinned suite must stay 538/538)
+mkdir -p /tmp/wt
 ID=$1; X=$2
 SRC=${SEED_SRC:-/tmp/wt/out}/$ID/$X
 WT=/tmp/wt/cf_${ID}_$X
